@@ -407,6 +407,32 @@ func GenFull(t *rapid.T, o Opts) *hx.Schema {
 		td.Dirs = g.dirUses("UNION", un+"du")
 		s.Types = append(s.Types, td)
 	}
+	// covariant narrowing of abstract-typed interface fields in implementers (possibly combined
+	// with the non-null variation applied above)
+	for _, td := range s.Types {
+		if td.Kind != hx.KObject {
+			continue
+		}
+		for _, in := range td.Interfaces {
+			for _, f := range ifaceDefs[in].Fields {
+				base := f.Type.BaseName()
+				if k := s.KindOf(base); k != hx.KInterface && k != hx.KUnion {
+					continue
+				}
+				poss := s.PossibleTypes(base)
+				if len(poss) == 0 || rapid.Bool().Draw(t, td.Name+in+f.Name+"narrow") {
+					continue
+				}
+				if of := td.Field(f.Name); of != nil {
+					tr := of.Type
+					for tr.List != nil {
+						tr = tr.List
+					}
+					tr.Name = rapid.SampledFrom(poss).Draw(t, td.Name+in+f.Name+"narrowTo")
+				}
+			}
+		}
+	}
 	if explicit {
 		s.Roots = map[string]string{"query": queryName}
 		if mutName != "" {
